@@ -6,7 +6,7 @@ from __future__ import annotations
 import ast
 from typing import Dict, List, Optional, Set, Tuple
 
-from ..core import AnalysisError, FuncInfo, Repo, attr_chain, call_name, const_value, is_const, unparse, walk_no_nested
+from ..core import deviates, AnalysisError, FuncInfo, Repo, attr_chain, call_name, const_value, is_const, unparse, walk_no_nested
 from ..report import Ctx
 from ..skelrules import check_skeleton
 
@@ -810,13 +810,30 @@ def _rec_shape(ctx: Ctx, occ: FuncInfo) -> None:
     if len(recs) != 1:
         raise AnalysisError(f"{occ.where}: recursive helper not found")
     rec = recs[0]
-    w, us, i, j, res = rec.params
-    # top-level call
     rets = [st for st in occ.body if isinstance(st, ast.Return)]
-    if len(rets) == 1 and unparse(rets[0].value) == f"{rec.name}({occ.params[1]}, cls.factor_pinword({occ.params[2]}), 0, 0, [])":
+    closure_form = False
+    if len(rec.params) == 5:
+        w, us, i, j, res = rec.params
+        start_wants = [f"{rec.name}({occ.params[1]}, cls.factor_pinword({occ.params[2]}), 0, 0, [])"]
+    elif len(rec.params) == 3:
+        # the helper closes over the word and over the factor list computed once by the enclosing function
+        i, j, res = rec.params
+        w = occ.params[1]
+        fl = [st for st in occ.body if isinstance(st, ast.Assign) and len(st.targets) == 1 and isinstance(st.targets[0], ast.Name)
+              and unparse(st.value) in (f"cls.factor_pinword({occ.params[2]})", f"PinWords.factor_pinword({occ.params[2]})")]
+        if len(fl) != 1:
+            raise AnalysisError(f"{occ.where}: the factor list the helper closes over was not found")
+        us = fl[0].targets[0].id
+        start_wants = [f"{rec.name}(0, 0, [])"]
+        closure_form = True
+    else:
+        raise AnalysisError(f"{rec.where}: expected parameters (word, factors, i, j, res) or (i, j, res)")
+    # top-level call
+    if len(rets) == 1 and unparse(rets[0].value) in start_wants:
         ctx.ok("C14-D1", occ.where, "search starts with the first factor of factor_pinword(u) at index 0 and an empty match list", rets[0], occ)
     else:
-        ctx.violation("C14-D1", occ, rets[0] if rets else occ.node, f"the factor search is not started as {rec.name}(w, factor_pinword(u), 0, 0, [])")
+        deviates(ctx, "C14-D1", occ, rets[0] if rets else occ.node, unparse(rets[0].value) if len(rets) == 1 else None, start_wants,
+                 f"the factor search is not started as {rec.name}(w, factor_pinword(u), 0, 0, [])")
     body = rec.body
     if not (len(body) == 1 and isinstance(body[0], ast.If)):
         raise AnalysisError(f"{rec.where}: case analysis not recognised")
@@ -859,10 +876,15 @@ def _rec_shape(ctx: Ctx, occ: FuncInfo) -> None:
         ctx.violation("C14-D1", rec, calls[0], "the results of the search for the remaining factors are not all passed on (yield from / for x in ...: yield x)")
         return
     args = [unparse(a) for a in calls[0].args]
-    if args == [w, us, f"{o} + len({us}[{j}])", f"{j} + 1", res]:
+    want_args = [f"{o} + len({us}[{j}])", f"{j} + 1", res] if closure_form else [w, us, f"{o} + len({us}[{j}])", f"{j} + 1", res]
+    if args == want_args:
         ctx.ok("C14-D1", rec.where, "the next factor is searched after the end of the current match (occ + len(factor)), factors in order", calls[0], rec)
     else:
-        ctx.violation("C14-D1", rec, calls[0], f"the search continues with ({', '.join(args)}); the next factor must start at or after {o} + len({us}[{j}]) (no overlap with the current match) and be factor j + 1")
+        msg = f"the search continues with ({', '.join(args)}); the next factor must start at or after {o} + len({us}[{j}]) (no overlap with the current match) and be factor j + 1"
+        if len(args) == len(want_args) and sum(1 for a, b in zip(args, want_args) if a != b) == 1:
+            ctx.violation("C14-D1", rec, calls[0], msg, robust=True)  # exactly one argument of the recursive call is not the expected one
+        else:
+            deviates(ctx, "C14-D1", rec, calls[0], ", ".join(args), [", ".join(want_args)], msg, k=2)
         return
     # D2 – the gap condition of the containment lemma (Brignall-Ruskuc-Vatter Lemma 3.3 / BBPR Thm 3.13): in the chopping
     # w = v1 w1 v2 w2 ... a factor w_k that begins with a *direction* letter needs a non-empty gap v_k before it.  For the
